@@ -48,7 +48,8 @@ Definition dtimers_body (cx : ctx) (s : socket) : outcome (socket * Z) :=
       | TRetransmit _ =>
           let s := upd_congestion_controller s (cc_on_rto (s_congestion_controller s) in_flight) in
           let s := upd_remote_last_seq s (s_local_seq_no s) in
-          (upd_rtte s (rtte_on_rto (s_rtte s)), 202)
+          let s := upd_rtte s (rtte_on_rto (s_rtte s)) in
+          (upd_pending_fast_retransmit s false, 202)
       | _ =>
           let s := upd_congestion_controller s (cc_on_loss (s_congestion_controller s) in_flight) in
           (upd_pending_fast_retransmit s true, 203)
@@ -102,13 +103,7 @@ Proof.
           destruct (g_phase g); [lia| |lia]. destruct (g_fin g); cbn [b2z]; lia. }
         split; [lia|]. split; [|split; assumption].
         unfold phase_ok in *. cbn [g_phase g_acked g_fin g_flight]. destruct (g_phase g); tauto. }
-      destruct (s_pending_fast_retransmit s) eqn:Epf.
-      * eexists _, _, (g_rewind g). split; [reflexivity|]. split; [|split; [auto|]].
-        -- split; [unfold tx_inv; fld; exact Hrw|].
-           unfold tm_inv, tm_inv_f. fld. unfold timer_set_for_retransmit, timer_set_for_idle. cbn.
-           split; discriminate.
-        -- split; [unfold frame; fld; repeat split; auto|repeat split; reflexivity].
-      * destruct ((s_remote_win_len s =? 0) && negb (rb_is_empty (s_tx_buffer s))) eqn:Ez.
+      destruct ((s_remote_win_len s =? 0) && negb (rb_is_empty (s_tx_buffer s))) eqn:Ez.
         -- eexists _, _, (g_rewind g). split; [reflexivity|]. split; [|split; [auto|]].
            ++ split; [unfold tx_inv; fld; exact Hrw|].
               unfold tm_inv, tm_inv_f. fld. unfold timer_set_for_zero_window_probe. cbn.
